@@ -375,7 +375,7 @@ func offOf(c c02Case) int64 {
 }
 
 func installGate(g string) {
-	for _, n := range []string{"recv.main.done", "recv.main.control", "send.fileEnd.before", "recv.finalize.before"} {
+	for _, n := range []string{"recv.main.done", "recv.main.control", "send.fileEnd.before", "recv.finalize.before", "recv.chunk.afterMark"} {
 		verifhook.Set(n, nil)
 	}
 	switch g {
@@ -387,6 +387,15 @@ func installGate(g string) {
 		verifhook.Set("send.fileEnd.before", func(verifhook.Event) { time.Sleep(100 * time.Millisecond) })
 	case "recvFinalize150":
 		verifhook.Set("recv.finalize.before", func(verifhook.Event) { time.Sleep(150 * time.Millisecond) })
+	case "recvAfterMark60":
+		// one reader in three pauses right after it has booked a chunk while the
+		// other streams go on (whatever the receiver has told the sender by then
+		// must already be true on disk)
+		verifhook.Set("recv.chunk.afterMark", func(ev verifhook.Event) {
+			if vk.Mix(ev.Seq^ev.A)%3 == 0 {
+				time.Sleep(60 * time.Millisecond)
+			}
+		})
 	case "recvFinalizePair":
 		// a spinning barrier per file: the first caller that wants to finalise a
 		// file waits (running, up to 30 ms) for a second caller for the same
@@ -609,10 +618,13 @@ func runC02(e *Env) {
 	}
 	// gated repetitions of the racing configurations
 	base := len(cases)
-	gates := []string{"recvDone250", "recvControl80", "sendFileEnd100", "recvFinalize150", "recvFinalizePair"}
+	gates := []string{"recvDone250", "recvControl80", "sendFileEnd100", "recvFinalize150", "recvFinalizePair", "recvAfterMark60"}
 	reps := e.Pick(2, 6)
 	gstep := e.Pick(4, 1)
 	for gi, g := range gates {
+		if g == "recvAfterMark60" && !e.Thorough() {
+			continue // quick: only the fault-free family below runs under this gate
+		}
 		k := 0
 		for i := 0; i < base; i++ {
 			c := cases[i]
@@ -643,6 +655,15 @@ func runC02(e *Env) {
 				f := *c.Fault
 				add(c02Case{W: c.W, Gate: g, Fault: &f, Rep: rep})
 			}
+		}
+	}
+	// fault-free transfers under the chunk-booking pause (several streams per file)
+	for _, w := range wls {
+		if w.PairOnly || w.OthersOnly || w.Cfg.Streams < 2 {
+			continue
+		}
+		for rep := 0; rep < e.Pick(8, 30); rep++ {
+			add(c02Case{W: w.Name, Gate: "recvAfterMark60", Other: "no-fault", Rep: rep})
 		}
 	}
 	e.R.SetExtra("cases_generated", len(cases))
